@@ -36,7 +36,7 @@ ASSUMPTIONS = [
     "refinement displacement bound is asserted where it exists mathematically: non-negative map and positive peak value (convex regression weights); 'half the patch size' is read as the half-extent (patch-1)/2 of the patch's cell-centre grid, +1e-5 slack; outside that domain only values / NaN pattern are asserted and the cases are counted (refine_outside_domain)",
     "'moves toward the true centre' is asserted for Gaussian bumps whose true centre lies at least (patch-1)/2 cells inside the map (full patch inside: at the border the zero-padded patch biases integral regression by construction): distance to the true centre must not grow (1e-6) and must strictly shrink when the grid peak is >= 0.25 px off; elsewhere only the displacement bound",
     "symmetric bump = pattern invariant under left-right and up-down mirroring about a cell whose patch lies inside the map; offset must be 0 within 1e-6",
-    "packing independence is checked between layout A (N,1) and layout B (ceil(N/3),3) with the map order rotated (rotation depends on VERIF_SEED)",
+    "packing independence is checked between layout A (N,1), layout B (ceil(N/3),3) with the map order rotated (rotation depends on VERIF_SEED) and layout C (= B stored channels-last: a dense non-contiguous tensor)",
 ]
 MIN_OUTCOMES = 20
 
@@ -173,7 +173,7 @@ def _unpack(out, S, C):
     return pts, vals
 
 
-def examine(spec, thr, rot, patch, layouts=("A", "B")):
+def examine(spec, thr, rot, patch, layouts=("A", "B", "C")):
     import torch
     from sleap_nn.inference import peak_finding as pf
 
@@ -197,6 +197,8 @@ def examine(spec, thr, rot, patch, layouts=("A", "B")):
         order, S, C = packing(N, layout, rot)
         arr = np.ascontiguousarray(maps[order].reshape(S, C, H, W))
         t = torch.from_numpy(arr.copy())
+        if layout == "C":  # same packing as B, but a dense NON-contiguous tensor: an NHWC buffer viewed as NCHW (channels-last)
+            t = torch.from_numpy(np.ascontiguousarray(arr.transpose(0, 2, 3, 1))).permute(0, 3, 1, 2)
         flat_order = order.reshape(S, C)
         a64 = arr.astype(np.float64)
         mx = a64.max(axis=(2, 3))
@@ -360,21 +362,22 @@ def examine(spec, thr, rot, patch, layouts=("A", "B")):
         with np.errstate(invalid="ignore"):
             codes.update(f"r{patch}:{v:g}" for v in np.unique(np.round((pts64 - rpts64)[dom], 2))[:60].tolist())
 
-    if patch is not None and len(refined_by_layout) == 2:
-        (oa, pa, va), (ob, pb, vb) = refined_by_layout[layouts[0]], refined_by_layout[layouts[1]]
+    for other in [l for l in layouts[1:] if l in refined_by_layout and layouts[0] in refined_by_layout and patch is not None]:
+        (oa, pa, va), (ob, pb, vb) = refined_by_layout[layouts[0]], refined_by_layout[other]
         ia, ib = np.argsort(oa), np.argsort(ob)
         pa, pb, va, vb = pa[ia], pb[ib], va[ia], vb[ib]
         evals += N
         diff = ~(np.isclose(pa, pb, rtol=0.0, atol=TOL, equal_nan=True).all(axis=1) & (va == vb))
         if diff.any():
             rows = np.nonzero(diff)[0].tolist()
+            tag = "AB" if other == "B" else "A" + other
             cap(
                 rows,
-                "AB",
-                lambda i: (
+                tag,
+                lambda i, pa=pa, pb=pb, va=va, vb=vb, tag=tag, other=other: (
                     int(i),
-                    "AB",
-                    f"integral(patch={patch}): map {maps[i].tolist()} threshold {thr:g}: refined to {pa[i].tolist()} value {va[i]} in packing A (N,1) but {pb[i].tolist()} value {vb[i]} in packing B (N/3,3 rotated by {rot}): "
+                    tag,
+                    f"integral(patch={patch}): map {maps[i].tolist()} threshold {thr:g}: refined to {pa[i].tolist()} value {va[i]} in packing A (N,1) but {pb[i].tolist()} value {vb[i]} in packing {other} (N/3,3 rotated by {rot}" + (", channels-last memory" if other == "C" else "") + "): "
                     "one channel's result depends on the others",
                 ),
             )
@@ -616,7 +619,7 @@ def replay(case):
 
     spec, thr, rot, patch = case["spec"], case["threshold"], case["rot"], case.get("patch")
     mi, layout = case.get("map_index"), case.get("layout", "A")
-    layouts = ("A", "B") if layout == "AB" or patch is not None else (layout,)
+    layouts = ("A", "C") if layout in ("C", "AC") else (("A", "B") if layout == "AB" or patch is not None else (layout,))
     r = examine(spec, thr, rot, patch, layouts=layouts)
     mine = [(m, l, msg) for m, l, msg in r["viol"] if m != "more" and (mi is None or m is None or m == mi)]
     out = {"batch_violations_for_this_map": [f"[{l}] {msg}" for m, l, msg in mine], "violates": bool(mine)}
